@@ -167,7 +167,10 @@ func startTimes(c *Ctx, n int) []time.Time {
 	base := time.Date(2019, 1, 1, 0, 0, 0, 0, time.UTC)
 	for i := 0; i < n; i++ {
 		t := base.Add(time.Duration(r.Int63n(int64(12*365*24))) * time.Hour).Add(time.Duration(r.Int63n(3600000)) * time.Millisecond)
-		if i%4 >= 2 {
+		if i%8 == 7 {
+			// before the Unix epoch: instants whose millisecond count is negative
+			t = time.Date(1950, 1, 1, 0, 0, 0, 0, time.UTC).Add(time.Duration(r.Int63n(int64(30*365*24))) * time.Hour).Add(time.Duration(r.Int63n(3600000)) * time.Millisecond)
+		} else if i%4 >= 2 {
 			// any era since the GPS epoch: civil time in Moscow (and everywhere else) has had other
 			// offsets and summer time; system time scales have not
 			t = time.Date(1980, 1, 6, 0, 0, 0, 0, time.UTC).Add(time.Duration(r.Int63n(int64(60*365*24))) * time.Hour).Add(time.Duration(r.Int63n(3600000)) * time.Millisecond)
@@ -258,7 +261,7 @@ func init() {
 	props["C06"] = &Prop{
 		Rule: "op timehist <T ms> <zone> <true instant/constellation:frame>…: handler.New(T in a random zone, with a sub-ms part) then GetMessage on synthetic CRC-valid " +
 			"MSM4/MSM7 frames of GPS/Glonass/Galileo/BeiDou whose timestamps are the true week positions of instants chosen per the precondition (first >= T in T's week, " +
-			"gaps 0..6d-1ms incl. the boundary values), histories of 1..40 (thorough 400) messages spanning several weeks, start times dense within 30 s of each rollover, half of them from 2019-2031 and half from any year 1980-2040, in fixed-offset zones and civil zones with summer time (Moscow, New York, Lord Howe, London), " +
+			"gaps 0..6d-1ms incl. the boundary values), histories of 1..40 (thorough 400) messages spanning several weeks, start times dense within 30 s of each rollover, half of them from 2019-2031 and three eighths from any year 1980-2040 and one eighth from 1950-1980 (negative Unix times), in fixed-offset zones and civil zones with summer time (Moscow, New York, Lord Howe, London), " +
 			"illegal timestamps inserted at random; non-trivial = at least two messages; distinct = distinct op line",
 		Gen: gen(false), Oracle: oracleTimes, NonTrivial: nontrivial,
 	}
